@@ -13,7 +13,8 @@ EXPLANATION = (
     "end); (R19.4) Greville points leave greville() only through a clamp to [kv[0], kv[-1]] (or as span midpoints for p=0); "
     "(R19.5) the derivative spline's knot differences, coefficient differences and new knot vector have matching static lengths; "
     "(R19.6) mesh/support queries all go through one cached unique() and agree on index conventions; the midpoints inserted by "
-    "the default refine() are computed from the distinct breakpoints (mesh / np.unique), never from the raw knot sequence.")
+    "the default refine() are computed from the distinct breakpoints (mesh / np.unique), never from the raw knot sequence; "
+    "(R19.7) make_knots uses its parameters as passed (no clamp of degree, span count or multiplicity).")
 DOES_NOT_DECIDE = "floating-point equality of break points; symmetry of __eq__ near its tolerance; values of Greville points"
 TECHNIQUE = "custom AST rules: static-length algebra of array constructors, order-provenance tagging, guard dominance, slice-length algebra"
 
@@ -475,7 +476,37 @@ def r19_6(ctx):
             ctx.undecided('R19.6', rf.qual, 'midpoints of the default refinement are taken between distinct breakpoints', dflt[0], 'origins: %s' % sorted(og))
 
 
+def r19_7(ctx):
+    """The construction parameters of make_knots reach the arrays as requested: a parameter that is rebound through a
+    clamp (min / max / np.clip against another parameter) silently changes the requested number of spans, degree or
+    multiplicity for the inputs outside the clamp."""
+    f = ctx.prog.func(B + '.make_knots')
+    params = [a.arg for a in f.node.args.args]
+    n = 0
+    for s in own_nodes(f.node):
+        tgts = []
+        if isinstance(s, ast.Assign):
+            tgts = [t.id for t in s.targets if isinstance(t, ast.Name)]
+        elif isinstance(s, ast.AugAssign) and isinstance(s.target, ast.Name):
+            tgts = [s.target.id]
+        for t in tgts:
+            if t not in params:
+                continue
+            n += 1
+            v = s.value
+            clamp = isinstance(v, ast.Call) and (call_name(v) or '').split('.')[-1] in ('min', 'max', 'clip', 'minimum', 'maximum')
+            if clamp:
+                ctx.violated('R19.7', f.qual, src(s), s,
+                             'parameter `%s` is clamped before the knot array is built: requests outside the clamp (e.g. multiplicity p+1 for '
+                             'discontinuous splines, or the default multiplicity 1 at degree 0) silently produce another knot vector' % t)
+            else:
+                ctx.undecided('R19.7', f.qual, src(s), s, 'parameter `%s` is rebound before use' % t)
+    if n == 0:
+        ctx.met('R19.7', f.qual, 'parameters (%s) are used as passed' % ', '.join(params), f.node, 'no parameter is rebound')
+
+
 def run(ctx):
+    r19_7(ctx)
     r19_1(ctx)
     r19_2(ctx)
     # R19.3 = R02.2 (same construct, evaluated once more under this property's id)
